@@ -318,6 +318,15 @@ def run(ctx, out, tier):
     shared.sh_err(ctx, out, ctx.validator_bodies(NAME) + [b for b in ctx.reachable_bodies() if b.id.startswith("blockwatch::validators::run") or "check_ai" in b.id], floor=25)
     shared.sh_state(ctx, out, NAME)
     shared.sh_merge(ctx, out, ctx.reachable_bodies())
+    # the validator only runs if the lazy detection loop creates it: every pending detector is asked
+    # about every block (shared with C11/C13/C14)
+    from rules.C14 import check_once as _detect_once, detect_fn as _detect_fn
+    _dv = _detect_fn(ctx)
+    if _dv is not None:
+        _detect_once(ctx, out, _dv, rule="C19.detect")
+    else:
+        out.inst("C19.detect", 0, 4)
+    shared.sh_flags(ctx, out, "check-ai", "C19.flags")
     return meta()
 
 
